@@ -73,7 +73,7 @@ PROPS = {
     "C01": dict(
         # bgq_run: the writer loop leaves only through shut_down (final drain): an entry appended before the last handle went away is
         # still handed to the stream
-        verus=[("bgq", {}, ["push", "consume", "report_validation_error", "drain_until_deadline"]), ("bgq_run", {}, ["run"])],
+        verus=[("bgq", {}, ["push", "consume", "report_validation_error", "drain_until_deadline"]), ("bgq_run", {}, ["run"]), ("bgq_build", {})],
         technique="Verus function contracts on the extracted real Inner::push / Receiver::consume / drain_until_deadline over a ghost log of the stream",
         level_text="Deductive proof (Verus/z3) of the writer side of the queue: every popped entry is handed to the stream exactly once, in pop order, for every stream result (Ok/Validation/Io), "
                    "nothing but the in-band error report is added, no popped entry is dropped on the deadline path, and push hands every entry to the queue. "
@@ -86,7 +86,7 @@ PROPS = {
         unreached=["Receiver::run", "BackgroundQueueBuilder::do_build (thread spawn)", "BoxEntrySink / BoxEntry forwarding (see C15)"],
     ),
     "C05": dict(
-        verus=[("bgq", {}, ["shut_down", "flush_stream", "drain_until_deadline", "consume", "drop", "forget"]), ("bgq_run", {})],
+        verus=[("bgq", {}, ["shut_down", "flush_stream", "drain_until_deadline", "consume", "drop", "forget"]), ("bgq_run", {}), ("bgq_build", {})],
         technique="Verus function contracts / anchored assertions on the extracted real Receiver::shut_down, flush_stream, BackgroundQueueJoinHandle::drop and forget",
         level_text="Deductive proof (Verus/z3) of the shutdown order: shut_down drains (every popped entry consumed), then flushes exactly once, then closes the stream with that flush as the last thing it saw; "
                    "dropping a live join handle stores the signal, then unparks, then joins; a forgotten handle does none of it. Thread termination and the forget path of run() are not reached.",
@@ -97,7 +97,7 @@ PROPS = {
         unreached=["whether Arc::get_mut can ever succeed after forget() (run keeps its own clone: read, not decided)", "AttachHandle::drop (macro-generated)", "entries appended after shutdown are discarded"],
     ),
     "C09": dict(
-        verus=[("bgq", {}, ["push"])],
+        verus=[("bgq", {}, ["push"]), ("bgq_build", {})],
         technique="Verus function contract on the extracted real Inner::push (effect-witness predicates on the crossbeam calls)",
         level_text="Deductive proof (Verus/z3) that push is loop-free and lock-free, hands the entry to force_push on every path (never drops or returns it itself), "
                    "reports one overflow to the recorder when force_push displaced an entry, and unparks the writer. That force_push displaces the OLDEST entry and keeps the rest in order is crossbeam's contract (assumed).",
